@@ -27,6 +27,7 @@ import (
 	"oras.land/oras-go/v2/content/memory"
 	"oras.land/oras-go/v2/content/oci"
 	"oras.land/oras-go/v2/errdef"
+	"oras.land/oras-go/v2/registry/remote"
 )
 
 const legacyArtifactManifest = "application/vnd.oci.artifact.manifest.v1+json"
@@ -70,6 +71,191 @@ type pushed struct {
 	// hostile manifests: listing them is fine, fetching must be refused without reading these blobs
 	Refuse     bool
 	BlobDigest []digest.Digest
+}
+
+// remoteRegistry: the same round trip against a REGISTRY (an in-process server speaking the distribution API with the
+// referrers API, one to three referrers per page): the client's remote branches (manifests and blobs are different
+// services there) are only walked this way. Signatures pushed through the client for two subject artifacts, foreign
+// referrers (another artifact type, a near-miss type), and hostile notation-typed manifests pushed directly.
+func remoteRegistry(ctx context.Context, r *lib.Run) {
+	n := r.N(48, 2000)
+	lib.Parallel(n, 8, func(iter int) {
+		rng := r.Rand(fmt.Sprintf("remote-%d", iter))
+		reg := lib.NewFakeRegistry(iter % 4)
+		defer reg.Close()
+		rr, err := remote.NewRepository(reg.Host() + "/test")
+		if err != nil {
+			panic(err)
+		}
+		rr.PlainHTTP = true
+		repo := registry.NewRepository(rr)
+		var subjects []ocispec.Descriptor
+		for i := 0; i < 2; i++ {
+			ld, err := oras.PushBytes(ctx, rr, "application/octet-stream", []byte(fmt.Sprint("remote layer", iter, i)))
+			if err != nil {
+				panic(err)
+			}
+			cfg, _ := oras.PushBytes(ctx, rr, ocispec.MediaTypeImageConfig, []byte(fmt.Sprintf(`{"remote":%d}`, i)))
+			m := ocispec.Manifest{MediaType: ocispec.MediaTypeImageManifest, Config: cfg, Layers: []ocispec.Descriptor{ld}}
+			m.SchemaVersion = 2
+			subjects = append(subjects, pushJSON(ctx, rr, ocispec.MediaTypeImageManifest, m))
+		}
+		if err := rr.Tag(ctx, subjects[0], "v1"); err != nil {
+			panic(err)
+		}
+		var trace []string
+		wit := func() map[string]any {
+			return map[string]any{"trace": trace, "referrers_per_page": iter % 4, "requests": reg.Requests()}
+		}
+		for _, ref := range []string{"v1", subjects[0].Digest.String(), subjects[1].Digest.String()} {
+			want := subjects[0]
+			if ref == subjects[1].Digest.String() {
+				want = subjects[1]
+			}
+			got, err := repo.Resolve(ctx, ref)
+			r.Eval(fmt.Sprintf("remote|%d|resolve|%s", iter, ref))
+			if err != nil || got.Digest != want.Digest || got.Size != want.Size || got.MediaType != want.MediaType {
+				r.Violation(map[string]string{"kind": "resolve", "store": "registry"}, fmt.Sprintf("Resolve(%.20s) = %+v (err=%v), the registry holds %+v", ref, got, err, want), wit())
+			}
+		}
+		model := map[digest.Digest][]pushed{}
+		notationCfg := ocispec.Descriptor{MediaType: registry.ArtifactTypeNotation, Digest: ocispec.DescriptorEmptyJSON.Digest, Size: 2}
+		nOps := 3 + rng.Intn(8)
+		for op := 0; op < nOps; op++ {
+			si := rng.Intn(2)
+			sub := subjects[si]
+			switch kind := rng.Intn(9); {
+			case kind <= 4:
+				mt := []string{lib.MediaJWS, lib.MediaCOSE}[rng.Intn(2)]
+				size := 1 + rng.Intn(5000)
+				if rng.Intn(8) == 0 {
+					size = 200000 + rng.Intn(900000)
+				}
+				blob := append([]byte(fmt.Sprintf("remote-envelope-%d-%d|", iter, op)), r.Rand(fmt.Sprintf("remote-blob-%d-%d", iter, op)).Bytes(size)...)
+				ann := map[string]string{"io.cncf.notary.x509chain.thumbprint#S256": fmt.Sprintf(`["%d"]`, op), "k": fmt.Sprint(op)}
+				if rng.Intn(4) == 0 {
+					ann = nil
+				}
+				bd, man, err := repo.PushSignature(ctx, mt, blob, sub, ann)
+				trace = append(trace, fmt.Sprintf("PushSignature(%s, %d bytes, subject#%d) -> %v", mt, len(blob), si, err))
+				if err != nil {
+					r.Violation(map[string]string{"kind": "push", "store": "registry"}, "PushSignature failed: "+err.Error(), wit())
+					continue
+				}
+				if bd.Digest != digest.FromBytes(blob) || bd.Size != int64(len(blob)) || bd.MediaType != mt {
+					r.Violation(map[string]string{"kind": "push-descriptor", "store": "registry"}, fmt.Sprintf("PushSignature returned blob descriptor %+v for %d bytes of %s", bd, len(blob), mt), wit())
+				}
+				model[sub.Digest] = append(model[sub.Digest], pushed{Kind: "signature", MT: mt, Blob: blob, Ann: ann, Man: man})
+				r.Event("signature-pushes-to-a-registry")
+			case kind == 5:
+				bd, _ := oras.PushBytes(ctx, rr, "application/spdx+json", []byte(fmt.Sprint("remote sbom", iter, op)))
+				if _, err := oras.PackManifest(ctx, rr, oras.PackManifestVersion1_1, "application/vnd.example.sbom", oras.PackManifestOptions{Subject: &sub, Layers: []ocispec.Descriptor{bd}}); err != nil {
+					panic(err)
+				}
+				trace = append(trace, fmt.Sprintf("foreign artifact type referrer of subject#%d", si))
+			case kind == 6:
+				variant := nearTypes[rng.Intn(len(nearTypes))]
+				vcfg := ocispec.Descriptor{MediaType: variant, Digest: ocispec.DescriptorEmptyJSON.Digest, Size: 2}
+				rr.Push(ctx, vcfg, bytes.NewReader([]byte("{}")))
+				bd, _ := oras.PushBytes(ctx, rr, lib.MediaJWS, []byte(fmt.Sprint("remote near-type", iter, op)))
+				nm := ocispec.Manifest{MediaType: ocispec.MediaTypeImageManifest, Config: vcfg, Layers: []ocispec.Descriptor{bd}, Subject: &sub}
+				nm.SchemaVersion = 2
+				pushJSON(ctx, rr, ocispec.MediaTypeImageManifest, nm)
+				trace = append(trace, fmt.Sprintf("image manifest of the near-miss artifact type %q for subject#%d", variant, si))
+			case kind == 7:
+				// notation-typed manifest with TWO layers: may be listed, must not be handed out as an envelope
+				rr.Push(ctx, notationCfg, bytes.NewReader([]byte("{}")))
+				b1, _ := oras.PushBytes(ctx, rr, lib.MediaJWS, []byte(fmt.Sprint("remote two-layer a", iter, op)))
+				b2, _ := oras.PushBytes(ctx, rr, lib.MediaJWS, []byte(fmt.Sprint("remote two-layer b", iter, op)))
+				m := ocispec.Manifest{MediaType: ocispec.MediaTypeImageManifest, Config: notationCfg, Layers: []ocispec.Descriptor{b1, b2}, Subject: &sub}
+				m.SchemaVersion = 2
+				d := pushJSON(ctx, rr, ocispec.MediaTypeImageManifest, m)
+				trace = append(trace, fmt.Sprintf("two-layer notation manifest for subject#%d", si))
+				model[sub.Digest] = append(model[sub.Digest], pushed{Kind: "hostile-two-layers", Man: d, Refuse: true})
+			default:
+				// the single layer DECLARES more than 32 MiB (the blob behind it is small): refused before the blob is asked for
+				rr.Push(ctx, notationCfg, bytes.NewReader([]byte("{}")))
+				real, _ := oras.PushBytes(ctx, rr, lib.MediaJWS, []byte(fmt.Sprint("remote declared-big", iter, op)))
+				lie := real
+				lie.Size = 32*1024*1024 + 1
+				m := ocispec.Manifest{MediaType: ocispec.MediaTypeImageManifest, Config: notationCfg, Layers: []ocispec.Descriptor{lie}, Subject: &sub}
+				m.SchemaVersion = 2
+				d := pushJSON(ctx, rr, ocispec.MediaTypeImageManifest, m)
+				trace = append(trace, fmt.Sprintf("notation manifest whose layer declares 32 MiB + 1 for subject#%d", si))
+				model[sub.Digest] = append(model[sub.Digest], pushed{Kind: "hostile-declared-blob-size", Man: d, Refuse: true, BlobDigest: []digest.Digest{real.Digest}})
+			}
+		}
+		for si, sub := range subjects {
+			var got []ocispec.Descriptor
+			pages := 0
+			err := repo.ListSignatures(ctx, sub, func(ds []ocispec.Descriptor) error { got = append(got, ds...); pages++; return nil })
+			r.Eval(fmt.Sprintf("remote|%d|%d|list", iter, si))
+			r.Event("listings-from-a-registry")
+			r.EventN("listing-pages-from-a-registry", int64(pages))
+			if err != nil {
+				r.Violation(map[string]string{"kind": "list-error", "store": "registry"}, "ListSignatures failed: "+err.Error(), wit())
+				continue
+			}
+			var gd, wd []string
+			gotBy := map[digest.Digest]ocispec.Descriptor{}
+			for _, d := range got {
+				gd = append(gd, d.Digest.String())
+				gotBy[d.Digest] = d
+			}
+			for _, p := range model[sub.Digest] {
+				wd = append(wd, p.Man.Digest.String())
+			}
+			sort.Strings(gd)
+			sort.Strings(wd)
+			if fmt.Sprint(gd) != fmt.Sprint(wd) {
+				w := wit()
+				w["listed"], w["pushed"] = gd, wd
+				r.Violation(map[string]string{"kind": "listing", "store": "registry"}, fmt.Sprintf("ListSignatures(subject#%d) over a registry returned %d manifests, %d notation-typed ones were pushed for it (sets differ)", si, len(gd), len(wd)), w)
+				continue
+			}
+			for _, p := range model[sub.Digest] {
+				md := gotBy[p.Man.Digest]
+				if p.Refuse {
+					before := 0
+					for _, bd := range p.BlobDigest {
+						before += reg.Count("GET", "/blobs/"+bd.String())
+					}
+					blob, _, ferr := repo.FetchSignatureBlob(ctx, md)
+					r.Event("hostile-fetches-from-a-registry")
+					if ferr == nil {
+						r.Violation(map[string]string{"kind": "hostile-not-refused", "hostile": p.Kind, "store": "registry"}, fmt.Sprintf("a %s manifest was not refused (%d bytes returned)", p.Kind, len(blob)), wit())
+					}
+					after := 0
+					for _, bd := range p.BlobDigest {
+						after += reg.Count("GET", "/blobs/"+bd.String())
+					}
+					if after > before {
+						r.Violation(map[string]string{"kind": "hostile-content-read", "hostile": p.Kind, "store": "registry"}, fmt.Sprintf("the blob of a %s manifest was requested from the registry before the refusal", p.Kind), wit())
+					}
+					continue
+				}
+				blob, bd, ferr := repo.FetchSignatureBlob(ctx, md)
+				r.Event("fetches-from-a-registry")
+				if ferr != nil || !bytes.Equal(blob, p.Blob) || bd.MediaType != p.MT || bd.Digest != digest.FromBytes(p.Blob) {
+					r.Violation(map[string]string{"kind": "fetch", "store": "registry"}, fmt.Sprintf("FetchSignatureBlob over a registry: err=%v, %d bytes of type %s; pushed %d bytes of type %s", ferr, len(blob), bd.MediaType, len(p.Blob), p.MT), wit())
+				}
+				for k, v := range p.Ann {
+					if md.Annotations[k] != v {
+						r.Violation(map[string]string{"kind": "annotations", "store": "registry"}, fmt.Sprintf("pushed annotation %s=%s is not on the listed manifest (%v)", k, v, md.Annotations), wit())
+					}
+				}
+				for k := range md.Annotations {
+					if _, ok := p.Ann[k]; !ok && k != ocispec.AnnotationCreated {
+						r.Violation(map[string]string{"kind": "annotations", "store": "registry"}, fmt.Sprintf("listed manifest carries annotation %q that was not pushed with it (pushed %v)", k, p.Ann), wit())
+					}
+				}
+			}
+		}
+		if iter < 2 {
+			r.Sample("registry sequence", map[string]any{"trace": trace, "requests": reg.Requests()})
+		}
+	}, r.PanicViolation("registry client over a registry"))
+	r.RequireAtLeast("fetches-from-a-registry", int64(n))
 }
 
 func main() {
@@ -567,6 +753,7 @@ func main() {
 			r.Violation(map[string]string{"kind": "hostile-not-refused", "hostile": "real-oversized-envelope"}, fmt.Sprintf("an envelope of 32 MiB + 1 was not refused before its content was used (err=%v, %d bytes returned, blob fetched %d times)", ferr, len(got), store.count(bd.Digest)), nil)
 		}
 	}()
+	remoteRegistry(ctx, r)
 	r.RequireAtLeast("listings", int64(n*3))
 	r.RequireAtLeast("fetches", int64(n))
 	r.RequireAtLeast("hostile-fetches", int64(n/2))
